@@ -24,10 +24,85 @@ def fieldnames(loc):
     return [p[2] for p in loc[1] if isinstance(p, tuple) and p[0] == "f"]
 
 
+def lookup_key(ctx):
+    """C12.lookup: an instruction handler that consults the hook table (SYSCALL, INT, INT1, INT3 insist on having hooks)
+    looks up its *own* mnemonic: the key of every hook-table query made while handling a code of mnemonic M is the
+    constant M (seeded change S80: INT3 asked for INT's hooks)."""
+    PR = P
+    ck, facts, O, D, hm = ctx.check, ctx.facts, ctx.oracle, ctx.dispatch, ctx.hmodel
+    try:
+        table_fn = ctx.roles.hook_roles()[3]
+    except Exception:  # noqa
+        table_fn = None
+    n = 0
+    for code, d in sorted(D.implemented().items()):
+        if not hm.producible(code):
+            continue
+        mn = d["mnemonic"]
+        h = facts.bodies[d.get("dispatcher") or d["handler"]]
+        # only handlers whose cone mentions the hook table at all
+        cone = C18_cone(facts, [d["handler"]])
+        touches = any(
+            (blk["term"]["k"] == "call" and (F.callee_name(blk["term"]) == table_fn)) or
+            any(st[0] == "a" and st[2][0] == "ref" and any(isinstance(e, list) and e[0] == "f" and e[2] == "mnemonic_hooks" for e in st[2][2][1])
+                for st in blk["s"])
+            for k in cone for blk in facts.bodies[k]["blocks"])
+        if not touches:
+            continue
+        keys = []
+        for shape in hm.shapes(code):
+            label, kinds, spec = shape
+            pr = PR.HandlerPrims(facts, ctx.roles, spec, code=code, mnemonic=mn, opkinds=kinds)
+
+            def icpt(I, path, frame, t, name, args, pr=pr, keys=keys):
+                short = name.rsplit("::", 1)[1].split("::<")[0] if "::" in name else name
+                key = None
+                if name == table_fn and len(args) >= 2:
+                    key = I._deref_all(path, args[1])
+                elif "HashMap" in name and short in ("get", "contains_key", "get_mut", "index", "entry") and len(args) >= 2 and args[0][0] == "ref" and \
+                        fieldnames(args[0][1])[-1:] == ["mnemonic_hooks"]:
+                    key = I._deref_all(path, args[1])
+                if key is not None:
+                    keys.append(key)
+                    p2 = path.copy()
+                    if name == table_fn or short in ("get", "get_mut"):
+                        return [(A.SOME(("hookset", key)), path), (A.NONE, p2)]
+                    if short == "contains_key":
+                        return [(A.INT(1, 8), path), (A.INT(0, 8), p2)]
+                    return None
+                return pr.intercept(I, path, frame, t, name, args)
+            I = A.Interp(facts, intercept=icpt)
+            list(I.run(h, [P.self_ref(), P.INSTR], A.Path()))
+        if not keys:
+            continue
+        n += 1
+        bad = None
+        for key in keys:
+            nm = None
+            if key[0] == "agg" and str(key[1]).endswith("SupportedMnemonic"):
+                ev = facts.enum_variant(str(key[1])[4:], key[2])
+                nm = ev[0] if ev else None
+            if nm != mn:
+                bad = bad or "asks the hook table for %s while handling %s" % (nm or A.show(key)[:40], mn)
+        inst = "Code=%s" % code
+        if bad:
+            ck.violation("C12.lookup", inst, bad, where=U.handler_where(facts, D, code),
+                         what="whether the instruction executes depends on another mnemonic's hooks; its own hooks are not what brackets it")
+        else:
+            ck.ok("C12.lookup", inst, len(keys))
+    ck.floor("handlers that consult the hook table", n, 4)
+
+
+def C18_cone(facts, roots):
+    from . import C18
+    return C18.cone_of(facts, roots)
+
+
 def run(ctx):
     order(ctx)
     runner(ctx)
     guard(ctx)
+    lookup_key(ctx)
 
 
 def order(ctx):
